@@ -126,9 +126,26 @@ Step ==
     /\ i' = i + 1
     /\ UNCHANGED tid
 
+\* As in TraceT1: a divergence after the program re-based X, Y or Z with G92 (in the prefix or in
+\* an earlier line of the file) lies in the frame of open finding D11, where the wrongly shifted
+\* tracked point can sit on a region border; such a file is reported as unmodelled.
+ShiftedPrefix ==
+    \E n \in 1..Len(Traces[tid].prefix) :
+        LET ev == Traces[tid].prefix[n]
+        IN  ev.ev = "g" /\ ev.in.code = "G92" /\ HasXYZ(ev.in)
+ShiftedLine(k) ==
+    \E n \in 1..(k - 1) :
+        LET ln == Traces[tid].ev[n].line
+        IN  ln.kind = "g" /\ ln.c.code = "G92" /\ HasXYZ(ln.c)
+FinalT1 ==
+    IF t1.c = "diverged" /\ (ShiftedPrefix \/ ShiftedLine(t1.s))
+    THEN [t1 EXCEPT !.c = "unmodelled", !.f = "g92xyz-frame:" \o t1.f]
+    ELSE t1
+
 Done ==
     /\ i = Len(Traces[tid].ev) + 1
-    /\ TLCSet(2, Append(TLCGet(2), [id |-> Traces[tid].id, v |-> [C20 |-> verdict], t1 |-> t1]))
+    /\ TLCSet(2, Append(TLCGet(2), [id |-> Traces[tid].id, v |-> [C20 |-> verdict],
+                                    t1 |-> FinalT1]))
     /\ i' = i + 1
     /\ UNCHANGED <<tid, verdict, ss, t1>>
 
